@@ -33,5 +33,25 @@ Definition chain_propagate (sq : Qc -> S) (ps : list (plane S)) (w : pwf S) (dur
   rbind (chain_multiply ps w) (fun w1 =>
   rbind (to_wavefront w1 PtPupil) (fun w2 =>
   propagate_dft sq (@no_shift S) w2 dur duc shape pshape os None)).
+
+(* Field.shift for angular tilt elements (Tilt.shift: x = xs - z*self.x, y = ys - z*self.y; then metres ->
+   oversampled output pixels and (x, y) -> (row, col) = (-y, x)); the full model with dispersive elements
+   is Model/Tilt.v (property C04).  z = focal length (None = np.inf is not meaningful with tilt) *)
+Definition ang_step (z : Qc) (acc : Qc * Qc) (t : tilt) : Qc * Qc :=
+  match t with
+  | TiltAng tx ty => (fst acc - z * tx, snd acc - z * ty)%Qc
+  | TiltDisp _ _ _ _ _ => acc
+  end.
+Definition ang_shift (z : option Qc) (dur duc : Qc) (os : Z) (f : field S) : Qc * Qc :=
+  let xy := fold_left (ang_step (match z with Some q => q | None => 0%Qc end)) (ftilt f) (0%Qc, 0%Qc) in
+  ((- (snd xy / dur * zq os))%Qc, (fst xy / duc * zq os)%Qc).
+
+(* the same call for fields that may carry angular tilt (per-segment tilts of a segmented pupil) *)
+Definition chain_propagate_tilted (sq : Qc -> S) (ps : list (plane S)) (w : pwf S) (dur duc : Qc)
+           (shape pshape : option (Z * Z)) (os : Z) : result (wavefront S) :=
+  rbind (chain_multiply ps w) (fun w1 =>
+  rbind (to_wavefront w1 PtPupil) (fun w2 =>
+  propagate_dft sq (ang_shift (wfocal w2) dur duc os) w2 dur duc shape pshape os None)).
 End Segment.
 Arguments to_wavefront {S}. Arguments chain_multiply {S}. Arguments chain_propagate {S}.
+Arguments ang_shift {S}. Arguments chain_propagate_tilted {S}.
